@@ -32,6 +32,8 @@ class Check(FormulaCheck):
                    'DATEDIF units md/yd are not in the statement; arguments are numbers; WEEKDAY types other than 1-3 include non-integers (2.5 is not a numbering)',
                    'whole-day serials are judged from 61 (1 March 1900) on')
 
+    NO_AMBIENT = ('alldays',)
+
     def plan(self, tier, seed):
         q = tier == 'quick'
         specs = [{'campaign': 'sentinels'}]
